@@ -192,6 +192,8 @@ type fsm struct {
 
 	curEntry string
 	stats    struct{ runs, memoHits, tuples int }
+
+	membCache map[*ssa.Function]int // state-membership helpers: index of their slice parameter, -1 = not one
 }
 
 type fsmProblem struct {
@@ -937,6 +939,13 @@ func (f *fsm) call(fn *ssa.Function, callInstr *ssa.Call, c *ssa.CallCommon, t *
 			callee = g // immediately invoked literal
 		}
 	}
+	// "is the current state one of these constants": slices.Contains / a variadic membership helper of the package
+	if callee != nil {
+		if res, ok := f.membership(callee, c, t, fn, args); ok {
+			setRes(t, []aval{boolVal(res)})
+			return []*tuple{t}
+		}
+	}
 	if callee == nil || !f.inShip(callee) {
 		setRes(t, nil)
 		return []*tuple{t}
@@ -1075,4 +1084,180 @@ func keysOf(m map[string]bool) []string {
 	}
 	sort.Strings(ks)
 	return ks
+}
+
+
+// constStateSlice: v is a slice literal / variadic argument list made of handshake-state constants.
+func (f *fsm) constStateSlice(v ssa.Value) ([]int8, bool) {
+	sl, ok := v.(*ssa.Slice)
+	if !ok {
+		return nil, false
+	}
+	al, ok := sl.X.(*ssa.Alloc)
+	if !ok {
+		return nil, false
+	}
+	var out []int8
+	for _, ref := range *al.Referrers() {
+		ia, ok := ref.(*ssa.IndexAddr)
+		if !ok {
+			continue
+		}
+		for _, r2 := range *ia.Referrers() {
+			st, ok := r2.(*ssa.Store)
+			if !ok || st.Addr != ssa.Value(ia) {
+				continue
+			}
+			k := core.ConstOf(st.Val)
+			if k == nil || !types.Identical(st.Val.Type(), f.stateType) {
+				return nil, false
+			}
+			iv, _ := constant.Int64Val(k)
+			idx, ok := f.stateIdx[iv]
+			if !ok {
+				return nil, false
+			}
+			out = append(out, idx)
+		}
+	}
+	return out, len(out) > 0
+}
+
+// stateMembershipParam: fn only answers "is the connection's current state one of the elements of my slice
+// parameter": boolean result, constant returns, true only behind an equality of the state with an element of
+// that parameter, no stores and no calls other than the state getter. Returns the parameter's index.
+func (f *fsm) stateMembershipParam(fn *ssa.Function) (int, bool) {
+	if !f.inShip(fn) || fn.Signature.Results().Len() != 1 || len(fn.Blocks) == 0 {
+		return 0, false
+	}
+	if b, ok := fn.Signature.Results().At(0).Type().Underlying().(*types.Basic); !ok || b.Kind() != types.Bool {
+		return 0, false
+	}
+	pidx := -1
+	for i, pa := range fn.Params {
+		if st, ok := pa.Type().Underlying().(*types.Slice); ok && types.Identical(st.Elem(), f.stateType) {
+			if pidx >= 0 {
+				return 0, false
+			}
+			pidx = i
+		}
+	}
+	if pidx < 0 {
+		return 0, false
+	}
+	param := fn.Params[pidx]
+	isState := func(v ssa.Value) bool {
+		if fld, _ := core.LoadedField(v); fld == f.fState {
+			return true
+		}
+		if c, ok := v.(*ssa.Call); ok {
+			if g := c.Call.StaticCallee(); g != nil && f.inShip(g) && g.Signature.Params().Len() == 0 {
+				okAll, any := true, false
+				core.EachInstr(g, func(in ssa.Instruction) {
+					if ret, isRet := in.(*ssa.Return); isRet && len(ret.Results) == 1 {
+						any = true
+						if fld, _ := core.LoadedField(core.ResultOf(ret, 0)); fld != f.fState {
+							okAll = false
+						}
+					}
+				})
+				return okAll && any
+			}
+		}
+		return false
+	}
+	isElem := func(v ssa.Value) bool {
+		u, ok := v.(*ssa.UnOp)
+		if !ok {
+			return false
+		}
+		ia, ok := u.X.(*ssa.IndexAddr)
+		return ok && ia.X == ssa.Value(param)
+	}
+	okShape, hasEq := true, false
+	var eqs []*ssa.BinOp
+	core.EachInstr(fn, func(in ssa.Instruction) {
+		switch x := in.(type) {
+		case *ssa.Store, *ssa.MapUpdate, *ssa.Send, *ssa.Go, *ssa.Defer:
+			okShape = false
+		case *ssa.Call:
+			if !isState(x) && !isBuiltin(x, "len") {
+				okShape = false
+			}
+		case *ssa.BinOp:
+			if x.Op == token.EQL && ((isState(x.X) && isElem(x.Y)) || (isState(x.Y) && isElem(x.X))) {
+				hasEq = true
+				eqs = append(eqs, x)
+			}
+		case *ssa.Return:
+			if k := core.ConstOf(core.ResultOf(x, 0)); k == nil {
+				okShape = false
+			} else if constant.BoolVal(k) {
+				// true only behind the equality
+				eqEdge := func(b *ssa.BasicBlock, idx int) bool {
+					i := core.BlockIf(b)
+					if i == nil {
+						return false
+					}
+					v, truth := core.Truth(i.Cond, idx)
+					bo, ok := v.(*ssa.BinOp)
+					if !ok || !truth {
+						return false
+					}
+					return bo.Op == token.EQL && ((isState(bo.X) && isElem(bo.Y)) || (isState(bo.Y) && isElem(bo.X)))
+				}
+				if !core.Guarded(x, eqEdge) {
+					okShape = false
+				}
+			}
+		}
+	})
+	return pidx, okShape && hasEq
+}
+
+// membership evaluates slices.Contains(constStates, state) and calls of a state-membership helper exactly: the
+// interpreter knows the current state.
+func (f *fsm) membership(callee *ssa.Function, c *ssa.CallCommon, t *tuple, fn *ssa.Function, args []aval) (bool, bool) {
+	in := func(set []int8) bool {
+		for _, s := range set {
+			if s == t.cfg.state {
+				return true
+			}
+		}
+		return false
+	}
+	if strings.HasPrefix(core.CalleeName(c), "slices.Contains[") && len(c.Args) == 2 {
+		set, ok := f.constStateSlice(c.Args[0])
+		if !ok {
+			return false, false
+		}
+		a := f.eval(c.Args[1], t, fn, args)
+		if a.k != kConst {
+			return false, false
+		}
+		cur, _ := constant.Int64Val(f.states[t.cfg.state].Val())
+		if v, exact := constant.Int64Val(a.c); !exact || v != cur {
+			return false, false // not the current state: leave it unknown
+		}
+		return in(set), true
+	}
+	if f.membCache == nil {
+		f.membCache = map[*ssa.Function]int{}
+	}
+	pidx, seen := f.membCache[callee]
+	if !seen {
+		pidx = -1
+		if i, ok := f.stateMembershipParam(callee); ok {
+			pidx = i
+		}
+		f.membCache[callee] = pidx
+	}
+	if pidx < 0 || pidx >= len(c.Args) {
+		return false, false
+	}
+	set, ok := f.constStateSlice(c.Args[pidx])
+	if !ok {
+		return false, false
+	}
+	return in(set), true
 }
